@@ -80,7 +80,7 @@ def scenario(rng, k):
     steps.append({"cmd": "roundtrip", "project": "p2", "sel": sel, "if_exists": "../A.tar.gz"})
     scn = {"project": proj, "steps": steps, "tag": [k, task, latest]}
     if git:
-        scn["git"] = {"commits": 2, "dirty": rng.random() < 0.5}
+        scn["git"] = {"commits": 2, "dirty": rng.random() < 0.5, "sha256": k % 4 == 3}
     return scn
 
 
